@@ -32,8 +32,9 @@ is replaced, while one path is traced, by a namespace whose only attribute is a 
 that records its arguments and either aborts (request, event) or returns a fake result object with the
 two attributes `t` (symbolic) and `sol` (a sentinel; calling it is allowed -- the log line does).
 The state of the event closure is reached through its closure cells: the numeric free variables of the
-captured callable; the one that holds `max_strain` after set-up is the strain, the other one (0) the
-previous time.  Other shapes (more / fewer numeric cells) fail closed.
+captured callable; the one that depends on `max_strain` after set-up is the strain, the one holding a
+constant the previous time (their initial values are entries 19 / 20 of the request vector).  Other
+shapes (more / fewer numeric cells) fail closed.
 Module-level names of pydrex.pathlines rebound while tracing (restored afterwards): np, si, _utils, _log,
 _is_inside (-> call of the generated k_is_inside_*).
 
@@ -317,8 +318,9 @@ def translations():
                 raise TranslatorUnsupported(f"free variable {name} of the event is unbound at the solve_ivp call")
             if isinstance(v, (Node, int, float)) and not isinstance(v, bool):
                 cells.append((name, cell, v))
-        strain = [c for c in cells if c[2] is probe]
-        other = [c for c in cells if c[2] is not probe]
+        const = lambda v: not isinstance(v, Node) or v.is_const          # noqa: E731
+        strain = [c for c in cells if not const(c[2])]
+        other = [c for c in cells if const(c[2])]
         if len(strain) != 1 or len(other) != 1:
             raise TranslatorUnsupported("the event closure does not keep exactly (previous time, strain) as numeric state: "
                                         + ", ".join(c[0] for c in cells))
